@@ -344,6 +344,21 @@ func runC01(c *harness.Ctx) {
 		c.Feature("many-small-writes-coalesced")
 	}
 	maybeHuge(c, link, cs, ss)
+	if len(cs.plan) > 0 && t.Draw("late-seed", 5) == 4 {
+		// the bridge's inline seed frame (the last 45 bytes of its first write) is
+		// held up for a few milliseconds and the client's first write starts just
+		// then: the distributions are re-seeded under a running Write
+		holdMs := 1 + t.Draw("late-seed.ms", 40)
+		hold := msec(holdMs)
+		cs.plan[0].PauseMs = holdMs
+		link.BA.Filter = func(off int64, p []byte) []byte {
+			if off == 0 && len(p) > 45 {
+				link.BA.AddFaultLocked(simnet.Fault{Kind: simnet.FaultStall, Offset: int64(len(p) - 45), Dur: hold})
+			}
+			return p
+		}
+		c.Feature("seed-frame-arrives-late")
+	}
 	cs.expectIn, ss.expectIn = planTotal(ss.plan), planTotal(cs.plan)
 	drawHangUp(c, cs, ss, false)
 	cs.rdDeadlineMs = []int{0, 0, 0, 1, 20, 300}[t.Draw("c.rddl", 6)]
